@@ -1101,7 +1101,7 @@ std::vector<double> Eigenvalues(const Matrix& M)
 {
 	Matrix A(M);
 	// Matrix U  = Identity_Matrix(A.Rows());
-	int i_max = 200;
+	int i_max = 5000;	 // (Unshifted QR first has to let a tiny coupling between eigenvalues stored in ascending order grow before it can decay: thousands of steps for couplings near the underflow threshold.)
 	for(int i = 0; i < i_max; i++)
 	{
 		std::pair<Matrix, Matrix> qr = QR_Decomposition(A);
